@@ -154,9 +154,9 @@ pub fn gen_dgrams(rng: &mut Rng64, n: usize, base_id: u64) -> Vec<DgPlan> {
                 1 => 0xffff_ffff,
                 _ => rng.next() as u32,
             } ^ 0,
-            host_len: if rng.chance(1, 3) { *rng.pick(&[0usize, 1, 255]) } else { rng.below(40) as usize },
+            host_len: if rng.chance(1, 3) { *rng.pick(&[0usize, 1, 255, 256, 300]) } else { rng.below(40) as usize },
             port: id as u16,
-            payload_len: if rng.chance(1, 2) { *rng.pick(&[0usize, 1, 2, 3, 4, 7, 8, 9]) } else { rng.below(300) as usize },
+            payload_len: if rng.chance(1, 2) { *rng.pick(&[0usize, 1, 2, 3, 4, 7, 8, 9]) } else if rng.chance(1, 12) { *rng.pick(&[65_535usize, 65_536, 20_000]) } else { rng.below(300) as usize },
             pause_before: if rng.chance(1, 5) { rng.range(1, 10) } else { 0 },
         }
     }).collect()
@@ -181,7 +181,29 @@ pub fn gen_scenario(seed: u64, profile: Profile) -> Scenario {
         }
         _ => 0,
     };
-    let dgrams = gen_dgrams(&mut rng, n_dg, 1);
+    let mut dgrams = gen_dgrams(&mut rng, n_dg, 1);
+    let mut dg_recv = [Some((0, 0)), Some((0, 0))];
+    if profile == Profile::Dgram {
+        // bursts of 0.5x, 1x, 3x the receiver's buffer; receivers prompt, slow or absent
+        let e = rng.below(2) as usize;
+        let cap = cfg[1 - e].dgram_buf.min(40);
+        let burst = (cap * *rng.pick(&[1usize, 2, 6])).div_ceil(2).max(1);
+        let mut more = gen_dgrams(&mut rng, burst, 1000);
+        for d in more.iter_mut() {
+            d.from = e as u8;
+            d.pause_before = 0;
+            d.payload_len = d.payload_len.min(64);
+        }
+        dgrams.extend(more);
+        for r in dg_recv.iter_mut() {
+            *r = match rng.below(4) {
+                0 => None,
+                1 => Some((rng.range(1, 5), 0)),
+                2 => Some((0, rng.range(1, 30))),
+                _ => Some((0, 0)),
+            };
+        }
+    }
     Scenario {
         seed,
         cfg,
@@ -191,7 +213,7 @@ pub fn gen_scenario(seed: u64, profile: Profile) -> Scenario {
         flush_pending: [if rng.chance(1, 4) { 3 } else { 0 }, if rng.chance(1, 4) { 3 } else { 0 }],
         streams,
         dgrams,
-        dg_recv: [Some((0, 0)), Some((0, 0))],
+        dg_recv,
         faults: [None, None],
         drop_first: rng.below(3) as u8,
     }
@@ -371,7 +393,7 @@ non-trivial = a reader observed end-of-stream",
 };
 
 pub fn spec_by_cmd(cmd: &str) -> Option<&'static FamilySpec> {
-    [&C02, &C03, &C05].into_iter().find(|s| s.cmd == cmd)
+    [&C02, &C03, &C05, &C11].into_iter().find(|s| s.cmd == cmd)
 }
 
 /// Re-execute one generated scenario and print its trace (replay support).
@@ -395,3 +417,16 @@ pub fn rerun(cmd: &str, seed: u64, tail: usize) {
         println!("FINDING {:?} {} :: {} (at {})", f.fam, f.sig, f.detail, f.at);
     }
 }
+
+pub const C11: FamilySpec = FamilySpec {
+    property: "C11",
+    cmd: "c11",
+    profile: Profile::Dgram,
+    fams: &[Fam::Dgram, Fam::Alive, Fam::Bytes, Fam::Panic],
+    stall_is_violation: true,
+    runs_quick: 24_000,
+    runs_thorough: 1_600_000,
+    rule: "one case = one execution of a seeded scenario with 1-40 datagrams plus a burst of 0.5x/1x/3x the receiver's datagram buffer (buffer 1/2/16/512), host length 0..300, payload 0..64 KiB incl. 0-3 bytes, flow ids incl. 0 and 2^32-1, \
+receivers prompt / slow / late / absent, and 0-3 streams transferring concurrently; oracle D1-D3: fields identical, each send received at most once and in send order, losses bounded by arrivals at a full buffer, \
+host > 255 refused with no trace on the wire, connection task alive, streams uncorrupted, no stall; non-trivial = at least one datagram was received",
+};
